@@ -210,14 +210,15 @@ theorem tie_operators :
     each handler leaves its message in the port, in source order — `processFlushReq` waits for the counter
     and for `shootDownInProcess` (repair 0728adcb), `processShootdownCommand` for `shootDownInProcess` and the
     counter (same repair), `processMemCopyReq` for the counter and room in ToDMA, `processLaunchKernelReq`
-    for a free dispatcher and the counter — and NOT for `shootDownInProcess`: the open finding
-    `C11-cp-launch-in-shootdown` (`cps_no_fault_full_refuted`); when that guard is added this obligation
-    breaks and the refutation has to become a theorem. The `if`s of `invalidateL1CachesBeforeKernel` and of
+    for a free dispatcher, the counter and — since the repair of finding `C11-cp-launch-in-shootdown` —
+    for `shootDownInProcess` (`CpS.launch`; `cps_no_fault_full` is a theorem with this guard, and
+    `cps_no_fault_full_before_fix_refuted` is the run that panics without it: removing the guard breaks
+    this obligation). The `if`s of `invalidateL1CachesBeforeKernel` and of
     `processCacheFlushRsp` (the order shootdown branch / invalidation branch / regular branch at 0). -/
 theorem tie_counter_users :
     cpFlushWaits = ["m.numCacheACK > 0", "m.shootDownInProcess"] ∧
     cpCopyWaits = ["m.numCacheACK > 0", "!m.ToDMA.CanSend()"] ∧
-    cpLaunchWaits = ["d == nil", "m.numCacheACK > 0"] ∧
+    cpLaunchWaits = ["d == nil", "m.numCacheACK > 0", "m.shootDownInProcess"] ∧
     ctrlShootdownWaits = ["m.shootDownInProcess", "m.numCacheACK > 0"] ∧
     cpInvalidateIfs = ["m.l1InvalidatedFor == req", "d.IsDispatching()", "m.numCacheACK == 0"] ∧
     ctrlCacheRspIfs = ["m.numCacheACK == 1 && !m.shootDownInProcess && !m.ToDriver.CanSend()", "m.numCacheACK == 0",
@@ -225,11 +226,15 @@ theorem tie_counter_users :
   refine ⟨rfl, rfl, rfl, rfl, rfl, rfl⟩
 
 /-- the model's launch takes the same decisions in the same order: no free dispatcher → wait; counter
-    above 0 → wait; otherwise the request is handled (here: second handling after the invalidation) -/
+    above 0 → wait; shootdown in process → wait (nothing is sent to the caches); otherwise the request is
+    handled (here: second handling after the invalidation). `CpS.launchOld` (the code before the repair)
+    issued the invalidation into the shootdown's counter. -/
 example : (({ nDisp := 1, busy := 1 } : CpS).launch 0 []).2 = false ∧
     (({ c := { numAck := 1 } } : CpS).launch 0 []).2 = false ∧
     (({ l1Inv := some 0 } : CpS).launch 0 []).1.started = 1 ∧
-    (({ shoot := true, nS := 1 } : CpS).launch 0 []).1.c.numAck = 1 := by decide +kernel
+    (({ shoot := true, nS := 1 } : CpS).launch 0 []).2 = false ∧
+    (({ shoot := true, nS := 1 } : CpS).launch 0 []).1.c.numAck = 0 ∧
+    (({ shoot := true, nS := 1 } : CpS).launchOld 0 []).1.c.numAck = 1 := by decide +kernel
 
 /-- **`Mq.delay` is the delay line of `defaultMemoryCopyMiddleware.Tick` with the generated
     operators and idle value.** -/
@@ -545,7 +550,7 @@ def auditedFuncs : List (String × String × String) := [
   ("amd/timing/cp/cpMiddleware.go", "cpMiddleware.cloneMemCopyH2DReq", "50268e88b715f5e5"),
   ("amd/timing/cp/cpMiddleware.go", "cpMiddleware.cloneMemCopyD2HReq", "22265add106e7d90"),
   ("amd/timing/cp/cpMiddleware.go", "cpMiddleware.flushCache", "94d2848273686172"),
-  ("amd/timing/cp/cpMiddleware.go", "cpMiddleware.processLaunchKernelReq", "09a5dd5a7f9fcd08"),
+  ("amd/timing/cp/cpMiddleware.go", "cpMiddleware.processLaunchKernelReq", "a748c97d53d1e49f"),
   ("amd/timing/cp/cpMiddleware.go", "cpMiddleware.invalidateL1CachesBeforeKernel", "d2cb472ae428af26"),
   ("amd/timing/cp/cpMiddleware.go", "cpMiddleware.invalidateCache", "6e8074084a03027a"),
   ("amd/timing/cp/cpMiddleware.go", "cpMiddleware.findAvailableDispatcher", "c09094f13d3f2a53"),
